@@ -446,7 +446,13 @@ func c04Run(c c04Case) (sig, msg string, nontrivial bool) {
 			return "panic", r.CPanic + r.SPanic, false
 		}
 		if r.CErr != nil || r.SErr != nil || r.CAct != nil || r.SAct != nil || r.Stalled {
-			return "honest-failed", fmt.Sprintf("connection %d: honest conversation failed: %v %v %v %v stalled=%v", conn, r.CErr, r.SErr, r.CAct, r.SAct, r.Stalled), false
+			// the handshake flights as they were on the wire, so that a failure can be examined offline
+			wire := ""
+			if r.CErr != nil || r.SErr != nil {
+				a, b := vfWireHex(r, 0), vfWireHex(r, 1)
+				wire = fmt.Sprintf(" | client->server: %s | server->client: %s", a, b)
+			}
+			return "honest-failed", fmt.Sprintf("connection %d: honest conversation failed: %v %v %v %v stalled=%v%s", conn, r.CErr, r.SErr, r.CAct, r.SAct, r.Stalled, wire), false
 		}
 		resumed := conn >= 1
 		if r.CS.DidResume != resumed {
@@ -521,4 +527,16 @@ func init() {
 		}
 		return nil
 	})
+}
+
+// vfWireHex: the records one side wrote, in hex (at most 4000 bytes of them), for failure reports.
+func vfWireHex(r *vfPair, dir int) string {
+	var all []byte
+	for _, rec := range vfRecordsOf(r, dir) {
+		all = append(all, rec.Raw...)
+		if len(all) > 4000 {
+			break
+		}
+	}
+	return fmt.Sprintf("%x", all)
 }
